@@ -6,7 +6,7 @@
    one frame, one stream, one object). *)
 From Coq Require Import NArith List Bool Init.Byte.
 From RSV Require Import gen.GenConst lib.Bytes model.Frame model.Parser model.Fragmenter model.SendQueue model.Pipeline
-     proofs.SendQueueProofs proofs.PipelineProofs.
+     proofs.FragmenterProofs proofs.SendQueueProofs proofs.PipelineProofs.
 Import ListNotations.
 Open Scope N_scope.
 
